@@ -125,7 +125,9 @@ def check_cfg(
                 # We enumerate the successor starting from the back, so we start with
                 # the `True` branch. This way, we find errors in a more natural order
                 (checked_bb, i, succ)
-                for i, succ in reverse_enumerate(bb.successors)
+                for i, succ in reverse_enumerate(
+                    bb.successors + bb.dummy_successors
+                )
             ]
             compiled[bb] = checked_bb
 
